@@ -8,13 +8,15 @@ Fixpoint lookup (k : string) (p : list (string * ept)) : option ept :=
   match p with [] => None | (k', v) :: r => if String.eqb k k' then Some v else lookup k r end.
 
 (* authF: missing entry -> deny; Trusted -> consensus.IsTrustedPeer(caller); Open -> allow; Closed -> deny *)
-Definition authorize (pol : list (string * ept)) (trusted : bool) (ep : string) : bool :=
-  match lookup ep pol with
+Definition authorize_entry (e : option ept) (trusted : bool) : bool :=
+  match e with
   | None => false
   | Some Trusted => trusted
   | Some Open => true
   | Some Closed => false
   end.
+Definition authorize (pol : list (string * ept)) (trusted : bool) (ep : string) : bool :=
+  authorize_entry (lookup ep pol) trusted.
 
 (* gorpc: a call made through the local server object is not authorised at all *)
 Definition call_allowed (pol : list (string * ept)) (local trusted : bool) (ep : string) : bool :=
